@@ -4,7 +4,7 @@ pub fn shift_left_small(limbs: &mut [u64], amount: usize) -> u64 {
     let mut overflow = 0;
     for limb in limbs {
         let value = (*limb << amount) | overflow;
-        overflow = *limb >> (64 - amount);
+        overflow = (*limb >> 1) >> (63 - amount); // `amount` may be zero
         *limb = value;
     }
     overflow
@@ -17,7 +17,7 @@ pub fn shift_right_small(limbs: &mut [u64], amount: usize) -> u64 {
     let mut overflow = 0;
     for limb in limbs.iter_mut().rev() {
         let value = (*limb >> amount) | overflow;
-        overflow = *limb << (64 - amount);
+        overflow = (*limb << 1) << (63 - amount); // `amount` may be zero
         *limb = value;
     }
     overflow
